@@ -62,9 +62,11 @@ func runStaged(c scase) string {
 }
 
 func genDur(r *kit.Rand) int64 {
-	switch r.Intn(8) {
+	switch r.Intn(9) {
 	case 0:
 		return 0
+	case 4:
+		return r.Range(1, 100) * 3_600_000_000_000 // hours: long soak stages
 	case 1:
 		return kit.Pick(r, int64(1), 2, 1000, 1_000_000)
 	case 2:
@@ -79,7 +81,7 @@ func genDur(r *kit.Rand) int64 {
 func genStaged(r *kit.Rand) scase {
 	var c scase
 	n := int(r.Range(1, 8))
-	maxT := kit.Pick(r, int64(10), 100, 1000, 1_000_000)
+	maxT := kit.Pick(r, int64(10), 100, 1000, 1_000_000, 50_000_000, 2_000_000_000)
 	var total int64
 	for i := 0; i < n; i++ {
 		d := genDur(r)
@@ -156,7 +158,7 @@ func runRamp(c rcase) string {
 
 func genRamp(r *kit.Rand) rcase {
 	var c rcase
-	maxT := kit.Pick(r, int64(10), 100, 1000, 1_000_000)
+	maxT := kit.Pick(r, int64(10), 100, 1000, 1_000_000, 50_000_000, 2_000_000_000)
 	c.from = r.Range(0, maxT)
 	c.to = r.Range(0, maxT)
 	if c.from == c.to {
